@@ -151,6 +151,46 @@ func (x *ctx) single(rng *rand.Rand) {
 	x.try("MultiscalarMulVartime(2)", func() *curve.EdwardsPoint {
 		return curve.NewEdwardsPoint().MultiscalarMulVartime([]*scalar.Scalar{sc, sc2}, []*curve.EdwardsPoint{lp, curve.ED25519_BASEPOINT_POINT})
 	}, w3, d)
+	// receiver aliases an input point of a multi-term operation
+	x.try("MultiscalarMul(receiver aliases points[0])", func() *curve.EdwardsPoint {
+		acc := curve.NewEdwardsPoint().Set(lp)
+		return acc.MultiscalarMul([]*scalar.Scalar{sc, sc2}, []*curve.EdwardsPoint{acc, curve.ED25519_BASEPOINT_POINT})
+	}, w3, d)
+	x.try("MultiscalarMul(receiver aliases points[1])", func() *curve.EdwardsPoint {
+		acc := curve.NewEdwardsPoint().Set(lp)
+		return acc.MultiscalarMul([]*scalar.Scalar{sc2, sc}, []*curve.EdwardsPoint{curve.ED25519_BASEPOINT_POINT, acc})
+	}, w3, d)
+	x.try("MultiscalarMulVartime(receiver aliases a point)", func() *curve.EdwardsPoint {
+		acc := curve.NewEdwardsPoint().Set(lp)
+		return acc.MultiscalarMulVartime([]*scalar.Scalar{sc, sc2}, []*curve.EdwardsPoint{acc, curve.ED25519_BASEPOINT_POINT})
+	}, w3, d)
+	x.try("DoubleScalarMulBasepointVartime(receiver aliases A)", func() *curve.EdwardsPoint {
+		acc := curve.NewEdwardsPoint().Set(lp)
+		return acc.DoubleScalarMulBasepointVartime(sc, acc, sc2)
+	}, w3, d)
+	x.try("ExpandedMultiscalarMulVartime(receiver aliases a dynamic point)", func() *curve.EdwardsPoint {
+		acc := curve.NewEdwardsPoint().Set(lp)
+		return acc.ExpandedMultiscalarMulVartime([]*scalar.Scalar{sc2}, []*curve.ExpandedEdwardsPoint{curve.NewExpandedEdwardsPoint(curve.ED25519_BASEPOINT_POINT)}, []*scalar.Scalar{sc}, []*curve.EdwardsPoint{acc})
+	}, w3, d)
+	x.try("Sum(receiver among the values)", func() *curve.EdwardsPoint {
+		acc := curve.NewEdwardsPoint().Set(lp)
+		return acc.Sum([]*curve.EdwardsPoint{acc, curve.ED25519_BASEPOINT_POINT, acc})
+	}, e.Ref.Add(e.Ref).Add(ref.B), d)
+	x.try("MulByCofactor-aliased", func() *curve.EdwardsPoint { t := curve.NewEdwardsPoint().Set(lp); return t.MulByCofactor(t) }, e.Ref.Mul(big.NewInt(8)), d)
+	x.try("Neg-aliased", func() *curve.EdwardsPoint { t := curve.NewEdwardsPoint().Set(lp); return t.Neg(t) }, e.Ref.Neg(), d)
+	// the exported constant objects themselves as operands (their extended coordinates, incl. T, are consumed)
+	ti := rng.IntN(8)
+	tref := ref.Decode(enc(curve.EIGHT_TORSION[ti])).Pt
+	x.try(fmt.Sprintf("Add(P, EIGHT_TORSION[%d])", ti), func() *curve.EdwardsPoint { return curve.NewEdwardsPoint().Add(lp, curve.EIGHT_TORSION[ti]) }, e.Ref.Add(tref), d)
+	x.try(fmt.Sprintf("Sub(EIGHT_TORSION[%d], P)", ti), func() *curve.EdwardsPoint { return curve.NewEdwardsPoint().Sub(curve.EIGHT_TORSION[ti], lp) }, tref.Add(e.Ref.Neg()), d)
+	x.try("Add(ED25519_BASEPOINT_POINT, P)", func() *curve.EdwardsPoint { return curve.NewEdwardsPoint().Add(curve.ED25519_BASEPOINT_POINT, lp) }, ref.B.Add(e.Ref), d)
+	x.try("Mul(EIGHT_TORSION[i], s)", func() *curve.EdwardsPoint { return curve.NewEdwardsPoint().Mul(curve.EIGHT_TORSION[ti], sc) }, tref.Mul(s), d)
+	x.try("Basepoint() of the shared table, then used as a receiver", func() *curve.EdwardsPoint {
+		p := curve.ED25519_BASEPOINT_TABLE.Basepoint()
+		p.Neg(p)
+		p.Add(p, p)
+		return curve.NewEdwardsPoint().Set(curve.ED25519_BASEPOINT_POINT) // the constant must be untouched
+	}, ref.B, d)
 	graftSingle(x, rng, e, lp, s, s2, sc, sc2, w1, w2, w3, d)
 
 	// Ristretto wrappers: compare RFC 9496 encodings (representatives must lie in 2E: even torsion index)
@@ -178,6 +218,14 @@ func (x *ctx) single(rng *rand.Rand) {
 			}, kB(new(big.Int).Add(ek, s2m)))
 			rchk("Ristretto.ExpandedDoubleScalarMulBasepointVartime", func() *curve.RistrettoPoint {
 				return curve.NewRistrettoPoint().ExpandedDoubleScalarMulBasepointVartime(sc, curve.NewExpandedRistrettoPoint(rp), sc2)
+			}, kB(new(big.Int).Add(ek, s2m)))
+			rchk("Ristretto.Sum(receiver among the values)", func() *curve.RistrettoPoint {
+				acc := curve.NewRistrettoPoint().Set(rp)
+				return acc.Sum([]*curve.RistrettoPoint{acc, curve.RISTRETTO_BASEPOINT_POINT, acc})
+			}, kB(new(big.Int).Add(new(big.Int).Lsh(e.K, 1), big.NewInt(1))))
+			rchk("Ristretto.MultiscalarMul(receiver aliases a point)", func() *curve.RistrettoPoint {
+				acc := curve.NewRistrettoPoint().Set(rp)
+				return acc.MultiscalarMul([]*scalar.Scalar{sc, sc2}, []*curve.RistrettoPoint{acc, curve.RISTRETTO_BASEPOINT_POINT})
 			}, kB(new(big.Int).Add(ek, s2m)))
 			rchk("Ristretto.Add/Neg/Sub", func() *curve.RistrettoPoint {
 				n := curve.NewRistrettoPoint().Neg(rp)
